@@ -181,7 +181,7 @@ def transpose (s : St) (t : Dense) : Res (St × Dense) := do
     let exp := defaultStrides t.ap.o.col t.shape
     let done : Dense := { t with ap := { t.ap with strides := copyPrefix t.ap.strides exp }, old := none, tw := none }
     if isVector t.shape then pure (s, done) else
-    let s ← (if t.dt == "str" then pure s else gatherCopyMask s t)
+    let s ← gatherCopyMask s t
     let s ← gatherCopy s t
     pure (s, done)
 
